@@ -30,8 +30,21 @@ def main(argv=None):
     except tlc.TLCError as e:
         print("MACHINERY-FAILURE property=%s: %s" % (a.pid, e))
         return 2
-    except Exception:
+    except Exception as e:
         traceback.print_exc()
+        # an exception raised *inside androguard* while it processes an input the harness generated (all of them well formed or, for the
+        # robustness properties, run behind their own guards) means the observation the property speaks about could not be made: that is a
+        # verdict about the code under check, not a failure of the machinery.  Exceptions raised in the harness itself stay machinery failures.
+        tb = e.__traceback__
+        last = None
+        while tb is not None:
+            last = tb.tb_frame.f_code.co_filename
+            tb = tb.tb_next
+        repo = os.environ.get("VERIF_REPO", "/repo")
+        if last and os.path.abspath(last).startswith(os.path.join(os.path.abspath(repo), "androguard") + os.sep) and not a.pid.startswith("X"):
+            chk.violation("androguard-raised:%s" % type(e).__name__, "an accessor the property observes raised instead of answering",
+                          dict(exception="%s: %s" % (type(e).__name__, str(e)[:200]), where=last))
+            return chk.finish()
         print("MACHINERY-FAILURE property=%s (harness exception)" % a.pid)
         return 2
 
